@@ -85,7 +85,13 @@ class Death:
         return "?"
 
     def brief(self):
-        return self.stderr[-3000:]
+        s = self.stderr
+        for mark in ("runtime error:", "ERROR: ", "WARNING: MemorySanitizer", "Assertion"):
+            i = s.find(mark)
+            if i >= 0:
+                j = s.rfind("\n", 0, i)
+                return s[j + 1:j + 2600]
+        return s[-2600:]
 
 
 class Timeout:
